@@ -373,6 +373,19 @@ def check_signer(ctx, S, M, rng, w):
             gone = [k for k in M.deleted_keys if M.find_key(k) is None]
             if not gone:
                 return
+            # first: an earlier successful request (same arguments, names only) whose key has been deleted since
+            old = [(a, k) for (a, k) in getattr(S, 'signer_history', []) if k in gone]
+            if old and rng.random() < 0.7:
+                a, k = rng.choice(old)
+                try:
+                    s = kc.get_signer(dict(a))
+                except Exception:   # noqa
+                    ctx.event('signer-deleted-key-refused')
+                    return
+                if s is not None:
+                    ctx.report('signer-for-deleted-key', 'get_signer returned a signer for a key that has been deleted (same arguments as before the deletion)',
+                               dict(w, form='replayed-request', args={x: (rc.name_to_uri(list(y), canonical=True)) for x, y in a.items()}))
+                return
             k = rng.choice(gone)
             args['key'] = list(k)
             try:
@@ -426,6 +439,11 @@ def judge_signer(ctx, S, M, args, exp_key, exp_loc, w, rng):
             return
         ctx.report(f'get-signer-raises:{type(e).__name__}@{raising_site(e)[0]}', f'get_signer raised {e!r} for a live selection', w)
         return
+    if all(isinstance(v, list) for v in args.values()) and ('key' in args or 'cert' in args):      # requests that pin the key itself
+        if not hasattr(S, 'signer_history'):
+            S.signer_history = []
+        S.signer_history.append(({k: list(v) for k, v in args.items()}, exp_key))
+        del S.signer_history[:-40]
     wire = bytes(make_data([C(b'signed'), C(gen.rand_bytes(rng, 4))], MetaInfo(), b'x', s))
     r = rc.strict_data(wire)
     idn = M.find_key(exp_key)
@@ -661,6 +679,19 @@ def run_history(ctx, rng, length, faults):
                 continue
             sig.append(op[0])
             ctx.event('op-' + op[0])
+            if op[0] in ('del_key', 'del_identity'):
+                # every earlier request that pinned a key which is gone now must be refused from now on
+                for (a, k) in list(getattr(S, 'signer_history', [])):
+                    if M.find_key(k) is None:
+                        try:
+                            sg = S.kc.get_signer(dict(a))
+                        except Exception:   # noqa
+                            ctx.event('signer-deleted-key-refused')
+                            continue
+                        if sg is not None:
+                            ctx.report('signer-for-deleted-key', 'get_signer returned a signer for a key that has just been deleted (same arguments as before the deletion)',
+                                       dict(w, args={x: rc.name_to_uri(list(y), canonical=True) for x, y in a.items()}))
+                S.signer_history = [(a, k) for (a, k) in getattr(S, 'signer_history', []) if M.find_key(k) is not None]
             check_invariants(ctx, S, M, w, op[0])
             if rng.random() < 0.3:
                 check_signer(ctx, S, M, rng, w)
